@@ -1431,6 +1431,13 @@ def check_meta(case, acc, case_id):
     if st == "ok":
         where = "top" if (case["ctx"] in ("json", "struct") or
                           (case["ctx"] == "prop" and case.get("target") != "obj")) else "nested"
+        if where == "nested":
+            # The struct codec's extra schema rules (optional-needs-default, length vs arrayLengthFormat /
+            # exhaust, non-negative length, null padding) are only documented - and enforced - for the
+            # top-level object; whether they are part of "the meta-schema" for nested objects is not stated
+            # anywhere, so acceptance in a nested context is counted, not judged.
+            acc.count("meta_nested_defect_accepted_dontcare")
+            return
         cx.fail(f"meta:accepted:{case['defect']}:{where}", f"defective schema was accepted (context {case['ctx']})")
         return
     if not isinstance(m, MSVE):
